@@ -296,7 +296,7 @@ def _random_shard(ctx: Ctx, shard: int, nshards: int, n: int) -> None:
 
 def run(ctx: Ctx) -> None:
     shard_run(ctx, _enum_shard, extra=(5 if ctx.quick else 6,))
-    shard_run(ctx, _random_shard, extra=(150 if ctx.quick else 5000,))
+    shard_run(ctx, _random_shard, extra=(600 if ctx.quick else 8000,))
     ctx.note("alphabet", ALPHABET)
 
 
